@@ -1,8 +1,8 @@
 (* C02 - World actions have no effect unless their preconditions hold.
-   Statements only; proofs in Proofs/WorldStep.v. *)
+   Statements only; proofs in Proofs/WorldStep.v and Proofs/Game.v. *)
 From stdpp Require Import gmap.
 From Coq Require Import ZArith NArith.
-From NSG Require Import Model.World Proofs.WorldStep.
+From NSG Require Import Model.Coord Proofs.CoordViews Model.World Model.Load Model.Game Proofs.WorldStep Proofs.Game.
 
 (* For ALL worlds, ALL views (reachable or not) and ALL actions: if the precondition of the
    action fails, the returned view is the previous view and the whole world is unchanged
@@ -49,6 +49,17 @@ Example C02_nonvacuous :
       (AExfil 1 2 (5, 6, 0%Z, 2))%N = true.
 Proof. vm_compute. split; reflexivity. Qed.
 
+(* the whole game (Model/Game.v): a game action of a playing agent whose preconditions do not hold leaves the world as it
+   is, the view stored for and reported to the agent is the view it had, and nobody else's record changes *)
+Theorem C02_whole_game : forall (sp : role -> start_pos) (goal : role -> view -> bool) (detect : list gaction -> gaction -> bool)
+    (cfg : config) (s : @state view gworld gaction) id c act a,
+  alookup c (agents s) = Some a -> a_ended a = false -> pre (fst (Coord.world s)) (a_view a) act = false ->
+  let s' := @h_start view gworld gaction g_wstep (g_winit sp) goal detect cfg s id c (MGame act true) in
+  Coord.world s' = Coord.world s /\
+  (forall a', alookup c (agents s') = Some a' -> a_view a' = a_view a) /\
+  (forall k, k <> c -> alookup k (agents s') = alookup k (agents s)).
+Proof. exact game_noop. Qed.
+
 Print Assumptions C02_noop.
 Print Assumptions C02_pre_exploit.
 Print Assumptions C02_pre_exfil.
@@ -56,3 +67,4 @@ Print Assumptions C02_pre_block.
 Print Assumptions C02_pre_find_data.
 Print Assumptions C02_pre_find_services.
 Print Assumptions C02_pre_scan.
+Print Assumptions C02_whole_game.
